@@ -166,8 +166,18 @@ func runBehaviour(t *testing.T, tr *vh.Trace, tid string, beh []Cmd, pairs map[i
 			})
 		case "alterTag":
 			ks = edit(t, ks, func(st *key_storage.Storage) {
-				if len(st.KeysHmacHash) > 0 {
-					st.KeysHmacHash[0] ^= 0x80
+				// every way of damaging the integrity tag counts, including removing it altogether
+				switch c.V {
+				case "strip":
+					st.KeysHmacHash = nil
+				case "truncate":
+					st.KeysHmacHash = st.KeysHmacHash[:len(st.KeysHmacHash)/2]
+				case "zero":
+					st.KeysHmacHash = make([]byte, len(st.KeysHmacHash))
+				default:
+					if len(st.KeysHmacHash) > 0 {
+						st.KeysHmacHash[0] ^= 0x80
+					}
 				}
 			})
 		}
